@@ -4,15 +4,31 @@
    prop  : against the independent list semantics.  Program ending in group_by_key: with
            `input` = Denote of the prefix, the observed groups have pairwise distinct keys, the
            key set is that of `input`, flattening the groups gives `input` back as a multiset, and
-           each key's list is exactly `values_of k input` in input order (as a multiset when the
-           prefix itself contains a hash step, whose row order is arbitrary; values are compared
-           exactly unless Canon.lists_arbitrary).  Any other program
+           each key's list is `values_of k input` AS A MULTISET (the property does not promise an
+           order inside a group; the order the model predicts is checked by `agree`).  Any other program
            (group_by_key inside join sides, downstream steps, distinct_per_key): observed =
            Denote of the whole program in the comparison mode Canon.cmp_of.
    known : reorder class (not generated on purpose for this property). *)
 From Coq Require Import List ZArith Bool String.
 From IB Require Import Util.J Engine.Val Engine.Lang Engine.Denote Engine.Decode Engine.Canon.
 Import ListNotations.
+
+(* a program with a group_by_key somewhere (also inside a join side): the reference is compared
+   with every nested list as a bag, because the order inside a group is not promised *)
+Fixpoint has_gbk (steps : list step) : bool :=
+  match steps with
+  | [] => false
+  | SGroupByKey :: _ => true
+  | SJoin _ rs _ :: r => (fix go (l : list step) : bool :=
+                            match l with
+                            | [] => false
+                            | SGroupByKey :: _ => true
+                            | _ :: l' => go l'
+                            end) rs || has_gbk r
+  | _ :: r => has_gbk r
+  end.
+Definition gbk_meets_ref (s : src) (steps : list step) (o : obs) : bool :=
+  if has_gbk steps then obs_meets CDeep (ref_outcome s steps) o else meets_ref s steps o.
 
 Definition gbk_prop (s : src) (steps : list step) (o : obs) : bool :=
   match last_step steps with
@@ -25,12 +41,13 @@ Definition gbk_prop (s : src) (steps : list step) (o : obs) : bool :=
           && keys_unique rows
           && rows_cmp bm (map vfst rows) (keys_of input)
           && rows_cmp bm (flat_map (gf GElems) rows) input
-          && forallb (fun r =>
-                        rows_cmp (if order_exact pre then CExact else bm)
-                                 (vlist (vsnd r)) (values_of (vfst r) input)) rows
+          (* the property pins every group's values as a MULTISET ("each one once, none lost,
+             none taken from another key"), not their order inside the group - the order the model
+             predicts is part of `agree` only *)
+          && forallb (fun r => rows_cmp bm (vlist (vsnd r)) (values_of (vfst r) input)) rows
       | _, _ => meets_ref s steps o
       end
-  | _ => meets_ref s steps o
+  | _ => gbk_meets_ref s steps o
   end.
 
 Definition check_C04 (kind : string) (input output : J) : verdict :=
@@ -47,7 +64,9 @@ Definition check_C04 (kind : string) (input output : J) : verdict :=
     match dec_prog input, dec_obs output with
     | Some (s, steps, m), Some o =>
         if big_ok steps then
-          V (big_agree m s steps o) (big_meets_ref s steps o) (reorder_changes s steps) false
+          V (big_agree m s steps o)
+            (if has_gbk steps then big_meets_ref_bag s steps o else big_meets_ref s steps o)
+            (reorder_changes s steps) false
         else malformed
     | _, _ => malformed
     end
